@@ -1,66 +1,123 @@
-_Q = {"grid": 1500, "graphs": 1500, "scales": 1500, "generic": 1000, "validity": 1500, "large": 400}
-_T = {"grid": 50000, "graphs": 50000, "scales": 50000, "generic": 40000, "validity": 40000, "large": 12000}
+_Q = {"grid": 1500, "graphs": 1500, "scales": 1500, "generic": 1000, "rounded": 1200, "validity": 1500, "large": 400, "exact": 1500, "h0_large": 32}
+_T = {"grid": 50000, "graphs": 50000, "scales": 50000, "generic": 40000, "rounded": 40000, "validity": 40000, "large": 12000, "exact": 50000, "h0_large": 1200}
 
 SPEC = {
     "property": "C19",
-    "rule": "one case = one finite metric space given as an n x n matrix whose triangle inequality is verified exactly by the generator "
-            "(n = 6..14, 1/16 of the cases n = 0..5, config large n = 15..48): integer grids in R^2/R^3 under l2/l1/linf, arc metric of points "
+    "rule": "one case = one finite point set with its n x n distance matrix (n = 6..14, 1/16 of the cases n = 0..5, config large n = 15..48). "
+            "Exact families (triangle inequality verified exactly by the generator): integer grids in R^2/R^3 under l2/l1/linf, arc metric of points "
             "on a cycle (incl. regular polygons), path metrics of weighted trees (single and multi scale) and of random graphs, clusters at "
             "scales 1/32..64 around far centres, ultrametrics, geometric progressions on a line, arbitrary metrics with integer distances in "
-            "[K,2K]; epsilon in {.01,.1,.3,.5,.9,.99} or k/64; dim_max 1..4; constructor (points + distance functor | lower-triangular "
-            "distance matrix with rows of exactly i entries) drawn per case; the library's random first point is steered to a start drawn "
-            "from the case RNG. Sparse_rips_complex::create_complex fills a Simplex_tree (default options / fast_persistence = float values); "
-            "its simplices and values are read back and checked: labels, vertex value 0, closed under faces, monotone (every epsilon incl. "
-            ">= 1, with and without mini/maxi); for epsilon < 1: every simplex is a Rips simplex (oracle/flag.h, edge value = distance) and "
-            "its value >= its diameter; for epsilon < 1 without bounds: all points are vertices and for every k < dim_max the Z_2 persistence "
-            "diagrams (oracle/zp_reduce.h) of Rips and sparse are within log(1/(1-epsilon)) + 1e-9 in log-scale bottleneck distance (decided "
-            "by bipartite matching with diagonal copies; bars born at 0 / essential bars only match their like). "
+            "[K,2K]. Rounded families (NOT exactly metric, no filter: std::vector<double> points + Gudhi::Euclidean_distance, or their matrix): "
+            "uniform reals in the unit cube, collinear multiples of 0.1/0.3/0.7/0.001 on a line or along a direction of the plane, noisy circles. "
+            "Half of the cases rescaled by 2^-40..2^60. epsilon from {.01,.1,.3,.5,.9,.99} (1/2), k/64 (1/5), U(0,1) (1/5), 10^-k or 1-10^-k, "
+            "k = 1..9 (1/10); dim_max 1..4, 1/16 of the cases 0 or -1, 1/12 of the cases with n <= 9 INT_MAX or n+1..n+5; constructor (points + "
+            "distance functor | lower-triangular distance matrix with rows of exactly i entries) drawn per case; the library's random first "
+            "point is steered to a start drawn from the case RNG (constructions with another start are abandoned from the harness's own distance "
+            "functor). Sparse_rips_complex::create_complex fills a Simplex_tree (default options / full_featured / fast_persistence = float "
+            "values / user options with short vertices, float values, link_nodes_by_label filled by a Sparse_rips_complex<float>); its "
+            "simplices and values are read back and checked: labels, vertex value 0, closed under faces, monotone, no simplex of dimension > "
+            "max(dim_max, 1), dimension() an upper bound (every epsilon incl. >= 1, with and without mini/maxi); 1/8 of the cases: a second "
+            "create_complex on the same object gives the same complex; for epsilon < 1: every simplex is a Rips simplex (oracle/flag.h, edge "
+            "value = distance) and its value >= its diameter; for epsilon < 1 without bounds: all points are vertices and for every "
+            "k < min(dim_max, n-1) the persistence diagrams over Z_2 (1/8 of the cases Z_3; oracle/zp_reduce.h) of Rips and sparse are within "
+            "log(1/(1-epsilon)) + 1e-9 in log-scale bottleneck distance (decided by bipartite matching with diagonal copies; bars born at 0 / "
+            "essential bars only match their like). "
+            "config exact: integer tree metrics (weights (1..1000) x {1,16,256}) whose greedy permutation from the drawn start has no tie, "
+            "epsilon in {1/2,1/4,1/8}, dim_max 1..4: the complex equals, simplex by simplex and value by value, the one derived from the "
+            "documented construction (buchet16efficient, values doubled) for the observed start. "
+            "config h0_large: n = 200..500 (thorough ..1500), dim_max 1, integer grids l1/linf, tree metrics, rounded cube / multi-scale "
+            "clusters / geometric line, epsilon 10^-k or U(.05,.99): all points are vertices, no edge earlier than its length, H_0 within the "
+            "bound (sorted minimum-spanning-tree weights: Prim on the metric, Kruskal on the sparse graph). "
+            "unit farthest: choose_n_farthest_points_metric called as the constructor calls it (distance on indices, irange, final_size -1 or a "
+            "prefix) with a fixed start on exact metrics of 1..400 points (exact comparison) and rounded Euclidean inputs (relative 1e-12): "
+            "a permutation (prefix) starting at the start, radius[0] = inf, radius[i] = distance of landmark i to the previous ones = max over "
+            "the remaining points. "
             "non-trivial = distinct (by hash of the input) guarantee case whose sparse complex is strictly smaller than Rips AND has a raised "
-            "value, or validity case (n >= 6) where epsilon >= 1 / the bounds removed simplices",
+            "value, or validity case (n >= 6) where epsilon >= 1 / the bounds removed simplices, or exact case smaller than the full complex with "
+            "a raised edge, or h0_large case with a dropped edge, or farthest case with n >= 4",
     "assumptions": ["Rips convention: vertex value 0, edge value = distance (not half), as documented for Rips_complex and used by Sparse_rips_complex",
-                    "inputs are metrics on distinct points (checked exactly in long double by the generator); dim_max >= 1",
+                    "inputs are metrics on distinct points (exact families: checked exactly in long double by the generator) or double-rounded Euclidean "
+                    "distances of distinct points (within an ulp of a metric; the guarantee is judged with the same tolerances)",
+                    "dim_max <= 0: the graph (vertices and edges) is inserted whatever dim_max, so the bound judged is max(dim_max, 1) and no homology is compared; "
+                    "dim_max <= 0 only with n <= 14, dim_max > 4 only with n <= 9",
                     "tolerances: relative max(1e-12, 8 ulp of Filtration_value) for 'never earlier' (the library computes 2*(d - lambda/eps)), "
                     "absolute max(1e-9, 8 ulp) on the log-bottleneck bound",
                     "no mini with the fast_persistence option set (dropping points would break its contiguous-vertices promise)",
                     "values above maxi and the set of points dropped by mini are counted, not judged (the property only asks for a valid filtered complex there)",
+                    "the template argument of Sparse_rips_complex is always the Filtration_value of the complex it fills (documented: \"the type used to store the filtration values of the simplicial complex\"); a Sparse_rips_complex<double> filling a float tree breaks the guarantee on edges entering exactly when a vertex dies and is outside the documented use",
+                    "the exact configuration trusts c19_extra.h documented_complex(), a restatement of the cited construction, and only runs where double arithmetic is exact and the greedy permutation unique",
+                    "choose_n_farthest_points (non-metric variant) and equality of the two variants are not checked (ties make the radii sequences differ legitimately)",
+                    "h0_large / farthest cases above 60 points do not log the matrix: they are reproduced from (seed, config, case index)",
                     "trusted: oracle/flag.h, oracle/zp_reduce.h, c19_bottleneck.h, the clique enumerator in c19_common.h (cross-checked against flag.h for n <= 10)"],
     "units": [
         {"name": "st_default", "src": ["c19_default.cpp"], "variant": "asan",
-         "configs": {k: {"quick": _Q[k], "thorough": _T[k]} for k in _Q}, "chunk": 50},
+         "configs": {k: {"quick": _Q[k], "thorough": _T[k]} for k in _Q}, "chunk": 2},
+        {"name": "farthest", "src": ["c19_farthest.cpp"], "variant": "asan",
+         "configs": {"metric": {"quick": 1600, "thorough": 40000}}, "chunk": 50},
+        {"name": "st_full", "src": ["c19_full.cpp"], "variant": "asan",
+         "configs": {"mixed": {"quick": 800, "thorough": 20000}, "validity": {"quick": 400, "thorough": 10000}, "exact": {"quick": 500, "thorough": 10000}}, "chunk": 50},
+        {"name": "st_custom", "src": ["c19_custom.cpp"], "variant": "asan",
+         "configs": {"mixed": {"quick": 800, "thorough": 20000}, "rounded": {"quick": 800, "thorough": 20000}, "validity": {"quick": 400, "thorough": 10000}}, "chunk": 50},
         {"name": "st_fast", "src": ["c19_fast.cpp"], "variant": "asan",
          "configs": {"mixed": {"quick": 1000, "thorough": 30000}, "validity": {"quick": 400, "thorough": 10000}}, "chunk": 50},
         {"name": "st_default_g", "src": ["c19_default.cpp"], "variant": "gasan", "tiers": ["thorough"],
-         "configs": {"grid": {"thorough": 6000}, "scales": {"thorough": 6000}, "validity": {"thorough": 6000}, "large": {"thorough": 1000}}, "chunk": 50},
+         "configs": {"grid": {"thorough": 6000}, "scales": {"thorough": 6000}, "rounded": {"thorough": 6000}, "validity": {"thorough": 6000},
+                     "large": {"thorough": 1000}, "exact": {"thorough": 6000}}, "chunk": 50},
     ],
     "floors": {
-        "quick": {"guarantee.cases": 3000, "state.sparse_strictly_smaller": 1800, "state.some_value_raised": 1600,
-                  "state.blocker_removed_simplices": 200, "edge.raised": 20000, "edge.dropped": 50000,
-                  "cmp.bottleneck.dim0": 3000, "cmp.bottleneck.dim1": 2000, "cmp.bottleneck.dim2": 1000,
-                  "state.rips_has_bars_dim1": 900, "state.rips_has_bars_dim2": 70, "state.diagrams_differ.dim1": 200,
-                  "validity.eps_ge1": 400, "validity.eps_lt1_bounded": 450, "state.vertices_dropped_by_mini": 250,
-                  "start.target_reached": 4000, "ctor.distance_matrix": 2000, "ctor.points_distance": 2000,
-                  "n.25_48": 120, "scale.distances_below_1e-8": 500, "scale.pow2_positive": 500, "_distinct_nontrivial": 2300},
-        "thorough": {"guarantee.cases": 90000, "state.sparse_strictly_smaller": 50000, "state.some_value_raised": 45000,
-                     "state.blocker_removed_simplices": 6000, "cmp.bottleneck.dim1": 60000, "cmp.bottleneck.dim2": 30000,
-                     "state.rips_has_bars_dim2": 2000, "state.diagrams_differ.dim1": 6000,
-                     "validity.eps_ge1": 12000, "validity.eps_lt1_bounded": 13000, "state.vertices_dropped_by_mini": 7000,
-                     "n.25_48": 4000, "_distinct_nontrivial": 70000},
+        "quick": {"guarantee.cases": 5000, "state.sparse_strictly_smaller": 3000, "state.some_value_raised": 2800,
+                  "state.blocker_removed_simplices": 400, "edge.raised": 30000, "edge.dropped": 85000,
+                  "cmp.bottleneck.dim0": 4900, "cmp.bottleneck.dim1": 3200, "cmp.bottleneck.dim2": 1600,
+                  "state.rips_has_bars_dim1": 1300, "state.rips_has_bars_dim2": 120, "state.diagrams_differ.dim1": 400,
+                  "validity.eps_ge1": 600, "validity.eps_lt1_bounded": 640, "state.vertices_dropped_by_mini": 440,
+                  "start.target_reached": 7000, "ctor.distance_matrix": 3200, "ctor.points_distance": 2400,
+                  "n.25_48": 130, "scale.distances_below_1e-8": 900, "scale.pow2_positive": 1300,
+                  # input classes added after the audit
+                  "dim_max.0": 185, "dim_max.-1": 185, "state.dim_max_le0_graph_only": 360, "cmp.valid.dimension_le_dim_max": 6500,
+                  "dim_max.int_max": 120, "dim_max.gt_n": 100, "state.dim_max_above_n_top_dim_ge4": 150,
+                  "input.rounded_not_exactly_metric": 1500, "guarantee.cases_rounded_input": 1300, "cmp.bottleneck.rounded_input": 2600,
+                  "ctor.points_euclidean_distance": 780, "family.rounded_collinear_1d": 290, "family.rounded_noisy_circle": 550,
+                  "eps_src.uniform": 1000, "eps_src.10^-k": 240, "eps_src.1-10^-k": 260,
+                  "cmp.repeat.create_complex": 780, "field.z3": 550,
+                  "cmp.exact.complex": 1000, "exact.state.smaller_than_full": 950, "exact.state.some_edge_raised": 440,
+                  "exact.state.blocker_removed_simplices": 210,
+                  "op.choose_n_farthest_points_metric": 750, "cmp.farthest.step": 60000, "farthest.n.201_400": 90,
+                  "farthest.state.pruned_by_triangle_inequality": 500, "farthest.state.tie_among_farthest": 500, "farthest.input.rounded": 180,
+                  "cmp.bottleneck.h0_large": 16, "h0.state.sparse_strictly_smaller": 14, "h0.sparse_edges": 240000,
+                  "_distinct_nontrivial": 3700},
+        "thorough": {"guarantee.cases": 150000, "state.sparse_strictly_smaller": 90000, "state.some_value_raised": 80000,
+                     "state.blocker_removed_simplices": 10000, "cmp.bottleneck.dim1": 90000, "cmp.bottleneck.dim2": 45000,
+                     "state.rips_has_bars_dim2": 3000, "state.diagrams_differ.dim1": 10000,
+                     "validity.eps_ge1": 16000, "validity.eps_lt1_bounded": 17000, "state.vertices_dropped_by_mini": 10000,
+                     "n.25_48": 4000,
+                     "dim_max.0": 4500, "dim_max.-1": 4500, "dim_max.int_max": 2800, "dim_max.gt_n": 2400,
+                     "input.rounded_not_exactly_metric": 36000, "guarantee.cases_rounded_input": 30000,
+                     "eps_src.uniform": 24000, "eps_src.10^-k": 5500, "eps_src.1-10^-k": 6000,
+                     "cmp.repeat.create_complex": 18000, "field.z3": 13000,
+                     "cmp.exact.complex": 25000, "exact.state.some_edge_raised": 10000, "exact.state.blocker_removed_simplices": 5000,
+                     "op.choose_n_farthest_points_metric": 18000, "farthest.n.201_400": 2000,
+                     "cmp.bottleneck.h0_large": 600, "h0.n.501_1500": 350,
+                     "_distinct_nontrivial": 100000},
     },
     "exhaustive": {"quick": False, "thorough": False},
     "manifest": {
         "text": "Runtime monitor: thousands of small finite metric spaces (grids under three norms, cycle / tree / graph metrics, multi-scale "
-                "clusters, ultrametrics, arbitrary [K,2K] metrics; 0-48 points) are given to Sparse_rips_complex through both constructors with "
-                "epsilon from 0.01 to 0.99 (and >= 1, and with mini/maxi for validity), under ASan+UBSan. The complex it builds is read back and "
-                "must be a face-closed, monotone filtered complex; for epsilon < 1 a subcomplex of the Rips complex never earlier than the "
-                "diameter; and without bounds its Z_2 persistence diagrams, computed by an independent textbook reduction, must be within "
-                "log(1/(1-epsilon)) of those of the brute-force Rips filtration in log-bottleneck distance in every dimension < dim_max "
-                "(decided by an independent matching procedure). Held on what was observed, not a proof. The bound is loose on such small "
-                "inputs (observed distances are mostly below half of it), so the monitor detects constructions that lose or mis-time "
-                "simplices grossly (wrong edge value formula, wrong vertex-death cut-off or blocker, mis-indexed insertion radii), not "
-                "changes that keep the complex between the sparse and the full Rips filtration.",
-        "note": "trusted: oracle/flag.h, oracle/zp_reduce.h, harness/c19_sparse_rips/c19_bottleneck.h; Rips edge value = distance; metric inputs on "
-                "distinct points; dim_max >= 1; the library's std::random_device start is steered by rebuilding until the start drawn by the "
-                "case RNG is observed through the harness's own distance functor",
-        "technique": "runtime monitoring: randomized metric spaces + brute-force Rips / textbook persistence / bottleneck-matching oracle, under AddressSanitizer/UBSan",
+                "clusters, ultrametrics, arbitrary [K,2K] metrics, and double-rounded Euclidean point clouds incl. collinear decimal points; "
+                "0-48 points) are given to Sparse_rips_complex through both constructors with epsilon from 1e-9 to 1 - 1e-9 (and >= 1, and with "
+                "mini/maxi for validity) and dim_max from -1 to INT_MAX, into four Simplex_tree option sets, under ASan+UBSan. The complex it "
+                "builds is read back and must be a face-closed, monotone filtered complex of dimension <= max(dim_max, 1), the same when built "
+                "twice; for epsilon < 1 a subcomplex of the Rips complex never earlier than the diameter; and without bounds its Z_2 (or Z_3) "
+                "persistence diagrams, computed by an independent textbook reduction, must be within log(1/(1-epsilon)) of those of the "
+                "brute-force Rips filtration in log-bottleneck distance in every dimension < dim_max (decided by an independent matching "
+                "procedure). On tie-free integer tree metrics with dyadic epsilon the complex must equal exactly the one derived from the "
+                "documented construction; at 200-1500 points the H_0 part of the guarantee is checked through minimum spanning trees; the "
+                "farthest-point ordering the constructor relies on is checked against its definition up to 400 points. Held on what was "
+                "observed, not a proof. Outside the exact configuration the bound is loose on such small inputs (observed distances are mostly "
+                "below half of it), so there the monitor detects constructions that lose or mis-time simplices grossly, not changes that keep "
+                "the complex between the sparse and the full Rips filtration.",
+        "note": "trusted: oracle/flag.h, oracle/zp_reduce.h, harness/c19_sparse_rips/c19_bottleneck.h, documented_complex() in c19_extra.h; Rips edge "
+                "value = distance; inputs are metrics on distinct points or double-rounded Euclidean distances; the library's std::random_device "
+                "start is steered by rebuilding until the start drawn by the case RNG is observed through the harness's own distance functor",
+        "technique": "runtime monitoring: randomized metric spaces + brute-force Rips / textbook persistence / bottleneck-matching / documented-construction / MST oracles, under AddressSanitizer/UBSan",
     },
 }
